@@ -5,6 +5,7 @@ import (
 	"flag"
 	"fmt"
 	"os"
+	"sort"
 	"strings"
 	"sync"
 
@@ -433,6 +434,9 @@ func runReq(e *ReqEdge, pkg *reg.Pkg, x *conc.Ctx, mode string, res *rep.Result)
 					return
 				}
 				addUnknown(doc, x.Seed)
+				if (x.Seed/3)%2 == 1 {
+					prefixAll(doc, x.V.Module)
+				}
 				b, _ := json.Marshal(doc)
 				u.Val = &gpb.TypedValue{Value: &gpb.TypedValue_JsonIetfVal{JsonIetfVal: b}}
 			}
@@ -485,6 +489,9 @@ func runReq(e *ReqEdge, pkg *reg.Pkg, x *conc.Ctx, mode string, res *rep.Result)
 		var opts []ytypes.UnmarshalOpt
 		if mode != "unmarshal" {
 			addUnknown(doc, x.Seed)
+			if (x.Seed/3)%2 == 1 {
+				prefixAll(doc, x.V.Module)
+			}
 			if mode == "unmarshal-extra-ignored" {
 				opts = append(opts, &ytypes.IgnoreExtraFields{})
 			}
@@ -574,15 +581,72 @@ func addUnknown(doc interface{}, seed int64) {
 	if !ok {
 		return
 	}
-	if seed%2 == 0 {
-		for _, v := range m {
-			if inner, ok := v.(map[string]interface{}); ok {
+	switch seed % 3 {
+	case 0:
+		// one level down
+		for _, k := range sortedKeys(m) {
+			if inner, ok := m[k].(map[string]interface{}); ok {
 				inner["no-such-node"] = "x"
 				return
 			}
 		}
+	case 1:
+		// as deep as objects go (list entries included)
+		cur := m
+		for {
+			var next map[string]interface{}
+			for _, k := range sortedKeys(cur) {
+				switch v := cur[k].(type) {
+				case map[string]interface{}:
+					next = v
+				case []interface{}:
+					if len(v) > 0 {
+						if e, ok := v[0].(map[string]interface{}); ok {
+							next = e
+						}
+					}
+				}
+				if next != nil {
+					break
+				}
+			}
+			if next == nil {
+				break
+			}
+			cur = next
+		}
+		cur["no-such-node"] = "x"
+		return
 	}
 	m["no-such-node"] = map[string]interface{}{"y": 1}
+}
+
+func sortedKeys(m map[string]interface{}) []string {
+	var ks []string
+	for k := range m {
+		ks = append(ks, k)
+	}
+	sort.Strings(ks)
+	return ks
+}
+
+// prefixAll gives every member name that has no module prefix the prefix of the module (RFC 7951
+// allows the prefix on every member; it is only REQUIRED where the module changes).
+func prefixAll(doc interface{}, module string) {
+	switch v := doc.(type) {
+	case map[string]interface{}:
+		for _, k := range sortedKeys(v) {
+			prefixAll(v[k], module)
+			if !strings.Contains(k, ":") && k != "no-such-node" {
+				v[module+":"+k] = v[k]
+				delete(v, k)
+			}
+		}
+	case []interface{}:
+		for _, e := range v {
+			prefixAll(e, module)
+		}
+	}
 }
 
 func compactProto(m proto.Message) string {
